@@ -650,6 +650,14 @@ impl CanonicalizeContext {
 				},
 			}
 		}
+		if element_name == "mmultiscripts" {
+			// not in ELEMENTS_WITH_FIXED_NUMBER_OF_CHILDREN, so the test above is never reached for it
+			let has_prescripts = mathml.children().iter()
+					.any(|&child| child.element().is_some() && name(&as_element(child)) == "mprescripts");
+			if n_children == 0 || (has_prescripts ^ (n_children % 2 == 0)) {
+				bail!("{} has the wrong number of children:\n{}", element_name, mml_to_string(&mathml));
+			}
+		}
 		let children = mathml.children();
 		if element_name == "semantics" {
 			if children.is_empty() {
